@@ -1,5 +1,6 @@
 SPECIFICATION Spec
-CONSTANTS Tri = {"run"}
+CONSTANTS FalsyAll = FALSE
+  Tri = {"run"}
 INVARIANT AsDocumented
 INVARIANT NamedNeverCasts
 INVARIANT FillComputeBinds
